@@ -242,8 +242,12 @@ class BaseDerivative(BaseInstrument):
 
     def __setattr__(self, name: str, value: Any) -> None:
         if isinstance(value, BasePrimary):
+            # As torch.nn.Module does for its submodules: the registry is the only place
+            # where the underlier is kept (a plain instance attribute would shadow it and
+            # go stale when the underlier of that name is registered again).
             self.register_underlier(name, value)
-        super().__setattr__(name, value)
+        else:
+            super().__setattr__(name, value)
 
     @property
     def spot(self) -> Tensor:
